@@ -370,9 +370,150 @@ def run_S_and_nested_supply(pid, tier, seed):
 
 reg("C02", ["Props.C02_deps_before_start", "Props.C02_values_at_start", "Props.C01_core"] + COMMON_S_THEOREMS,
     run_S_and_nested_supply, ASSUME_S)
+def pending_executor_runs():
+    """An executor run of an AsyncDAG that is CREATED (the coroutine / task exists) before the DAG is set up and awaited after
+    it — or next to it: whatever the run reads of the instance it reads when it runs; every setup node is entered once, and the
+    run returns the ordinary value.  Yields (variant, problems)."""
+    import asyncio as _aio
+    from tawazi import dag as _dag, xn as _xn
+    cnt = {}
+
+    def load_a():
+        cnt["a"] = cnt.get("a", 0) + 1
+        return ("A", cnt["a"])
+
+    def load_b(a):
+        cnt["b"] = cnt.get("b", 0) + 1
+        return ("B", a, cnt["b"])
+
+    def work(x, b):
+        cnt["w"] = cnt.get("w", 0) + 1
+        return (x, b)
+    for f_ in (load_a, load_b, work):
+        f_.__qualname__ = f_.__name__
+    xa, xb, xw = _xn(load_a, setup=True), _xn(load_b, setup=True), _xn(work)
+
+    def pipe(x):
+        return xw(x, xb(xa()))
+    for variant in ("coroutine-then-setup-then-await", "task-then-setup", "gather(setup, run)", "gather(run, setup)", "await-directly"):
+        for sel in (None, ["work"]):
+            d = _dag(pipe, is_async=True)
+            cnt.clear()
+            bad = []
+
+            async def main(d=d, variant=variant, sel=sel):
+                ex = d.executor(target_nodes=sel)
+                if variant == "coroutine-then-setup-then-await":
+                    c = ex(7)
+                    await d.setup()
+                    return await c
+                if variant == "task-then-setup":
+                    t = _aio.ensure_future(ex(7))
+                    await d.setup()
+                    return await t
+                if variant == "gather(setup, run)":
+                    return (await _aio.gather(d.setup(), ex(7)))[1]
+                if variant == "gather(run, setup)":
+                    return (await _aio.gather(ex(7), d.setup()))[0]
+                await d.setup()
+                return await ex(7)
+            try:
+                r = _aio.run(_aio.wait_for(main(), 20))
+                if not (isinstance(r, tuple) and r[0] == 7 and isinstance(r[1], tuple) and r[1][0] == "B"):
+                    bad.append("the run returned %r" % (r,))
+                for k_ in ("a", "b"):
+                    # concurrent FIRST runs of a setup node are outside the properties; one entry is required when the setup()
+                    # has finished before the run starts
+                    if cnt.get(k_, 0) != 1 and variant in ("coroutine-then-setup-then-await", "await-directly"):
+                        bad.append("setup node load_%s was entered %d times" % (k_, cnt.get(k_, 0)))
+                if cnt.get("w", 0) != 1:
+                    bad.append("work was entered %d times" % cnt.get("w", 0))
+            except BaseException as e:  # noqa: BLE001
+                bad.append("raised %s: %s" % (type(e).__name__, str(e)[:120]))
+            yield "%s/%s" % (variant, "targets" if sel else "whole"), bad
+
+
+def foreign_cache_histories():
+    """An instance that HAS its setup value restarts from a cache file written by ANOTHER instance (a deep copy made before
+    the setup ran), whose setup value differs (the setup function counts its executions).  During that one run the file's
+    entries are forced over the instance's; afterwards the instance still holds ITS OWN first value, for every later call.
+    Both flavours.  Yields (variant, problems)."""
+    import asyncio as _aio
+    import copy as _copy
+    import os as _os
+    import tempfile as _tmp
+    from tawazi import dag as _dag, xn as _xn
+    for is_async in (False, True):
+        cnt = {"n": 0}
+
+        def load():
+            cnt["n"] += 1
+            return ("model", cnt["n"])
+
+        def use(m, x):
+            return (m, x)
+        for f_ in (load, use):
+            f_.__qualname__ = f_.__name__
+        xl, xu = _xn(load, setup=True), _xn(use)
+
+        def pipe(x):
+            return xu(xl(), x)
+        d = _dag(pipe, is_async=is_async)
+        other = _copy.deepcopy(d)
+        run = (lambda c: _aio.run(c)) if is_async else (lambda v: v)
+        fd, path = _tmp.mkstemp(suffix=".pkl", prefix="twzforeign")
+        _os.close(fd)
+        bad = []
+        try:
+            run(d.setup())                                   # d: ("model", 1)
+            first = run(d(1))
+            run(other.executor(cache_in=path)(2))            # other computes ("model", 2) and writes it
+            during = run(d.executor(from_cache=path)(3))     # the file's entries are forced over d's for THIS run
+            after = [run(d(4)), run(d.executor()(5))]
+            if first != (("model", 1), 1):
+                bad.append("first call returned %r" % (first,))
+            for k_, r in zip((4, 5), after):
+                if r != (("model", 1), k_):
+                    bad.append("after the restart from a foreign file a run of the instance returned %r, its own setup value is ('model', 1)" % (r,))
+            if cnt["n"] != 2:
+                bad.append("the setup function ran %d times in all (once per instance expected)" % cnt["n"])
+            if not (isinstance(during, tuple) and during[1] == 2):
+                # the restart takes `use`'s result from the file too: it is the foreign run's result
+                bad.append("the restart from the file returned %r" % (during,))
+        except BaseException as e:  # noqa: BLE001
+            bad.append("raised %s: %s" % (type(e).__name__, str(e)[:160]))
+        finally:
+            try:
+                _os.remove(path)
+            except OSError:
+                pass
+        yield ("async" if is_async else "sync"), bad
+
+
+def with_foreign_cache(run):
+    def wrapped(pid, tier, seed):
+        cov, fs, searcher = run(pid, tier, seed)
+        k_ = 0
+        for variant, problems in foreign_cache_histories():
+            k_ += 1
+            if problems:
+                fs.append(Failure("counterexample", "setup-value-replaced-by-a-foreign-cache-file(%s)" % variant, dict(variant=variant),
+                                  dict(problems=problems), slice_="H"))
+        cov["foreign_cache_histories"] = k_
+        cov["evaluations"] += k_
+        return cov, fs, searcher
+    return wrapped
+
+
 def run_S_and_H(pid, tier, seed):
     """C03 also quantifies over the position of the call in a history on one instance."""
     cov, fs, searcher = run_S(pid, tier, seed)
+    np_ = 0
+    for variant, problems in pending_executor_runs():
+        np_ += 1
+        if problems:
+            fs.append(Failure("counterexample", "pending-async-executor-run(%s)" % variant, dict(variant=variant), dict(problems=problems), slice_="H"))
+    cov["pending_async_executor_runs"] = np_
     covh, fsh, _ = run_H(pid, tier, seed)
     cov["histories"] = {k: v for k, v in covh.items() if k not in ("samples", "rule")}
     cov["evaluations"] += covh["evaluations"]
@@ -634,6 +775,23 @@ def run_S_C14(pid, tier, seed):
             fs.append(Failure("counterexample", "invalid-arguments-not-refused", dict(is_async=is_async, args=args),
                               dict(want=want, got=got, nodes_started=ran), slice_="S"))
     cov["invalid_argument_calls"] = len(res)
+    # no node fails in these: ANY exception out of concurrent awaits of one AsyncDAG (cold setup nodes included: whoever gets
+    # there first computes them) is an internal error, not a node failure
+    base = random.Random("C14/g/%d" % seed)
+    ng = 0
+    for k in range(60 if tier == "quick" else 1000):
+        rng = random.Random(base.randrange(1 << 62))
+        sc = A.gen_gather(rng)
+        out = A.run_gather(sc, rng.randrange(1 << 30))
+        ng += 1
+        if out[0] == "exc":
+            fs.append(Failure("counterexample", "call-raised-without-any-node-failure:" + type(out[1]).__name__, sc,
+                              dict(outcome=repr(out[1])[:300]), slice_="A"))
+            break
+        if out[0] == "hang":
+            break       # liveness is C09 / C17's business
+    cov["concurrent_await_batches_without_failing_nodes"] = ng
+    cov["evaluations"] += ng
     return cov, fs, searcher
 
 
@@ -1037,6 +1195,11 @@ def run_G(pid, tier, seed):
                     if not dbg and any(debug[x] for x in got):
                         bad("debug-node-selected-with-flag-off", sc, case=case, got=sorted(got),
                             debug_nodes=[x for x in got if debug[x]])
+                    if {x for x in got if not debug[x]} != nondebug_want and _in_precondition(preds, Rr, Xr, Tr):
+                        # the production nodes of a selection are the documented closure minus the debug nodes, flag on or off
+                        # (a targeted debug node's production ancestors run in both settings: values must not depend on the flag)
+                        bad("production-nodes-of-the-selection-depend-on-the-debug-flag", sc, case=case, flag=dbg,
+                            got=sorted(x for x in got if not debug[x]), want=sorted(nondebug_want))
                     if dbg:
                         extra = got - clo
                         for x in extra:
@@ -1055,6 +1218,35 @@ def run_G(pid, tier, seed):
                     if wrong:
                         which = "+".join(nm for nm, v in (("root", R), ("exclude", X), ("target", T)) if v is not None) or "none"
                         bad("cp-table-wrong/executor-%s" % which, sc, case=case, wrong=wrong)
+                # ---- the same selection on top of a cache file holding EVERY result (a whole run of a fresh instance wrote it):
+                # all nodes are "already computed" — the selection executes nothing and the real values of all of them come back
+                if pid == "C12" and ex is not None and not any(debug) and rng.random() < 0.25:
+                    import os as _os
+                    import tempfile as _tmp
+                    fd_, cpath = _tmp.mkstemp(suffix=".pkl", prefix="twzsel")
+                    _os.close(fd_)
+                    try:
+                        dw, _n = G.build(sc, inst=("gw", k))
+                        full = G.call(dw, dw.executor(cache_in=cpath))
+                        d2_, _n = G.build(sc, inst=("gc", k))
+                        G.set_debug(dbg)
+                        to_real2 = lambda al: None if al is None else [G.to_real_alias(None, d2_, a) for a in al]  # noqa: E731
+                        ex2 = d2_.executor(root_nodes=to_real2(R), exclude_nodes=to_real2(X), target_nodes=to_real2(T), from_cache=cpath)
+                        before_ = dict(G.COUNTS)
+                        r2 = G.call(d2_, ex2)
+                        stats["selections_over_a_full_cache_file"] = stats.get("selections_over_a_full_cache_file", 0) + 1
+                        if list(r2) != list(full):
+                            bad("already-computed-nodes-outside-the-selection-returned-as-None", sc, case=case, got=r2, want=full)
+                        ran_ = [i for i in range(sc["n"]) if G.COUNTS.get((("gc", k), i), 0) - before_.get((("gc", k), i), 0)]
+                        if ran_:
+                            bad("selection-over-a-full-cache-file-executed-nodes", sc, case=case, ran=ran_)
+                    except BaseException as e_:  # noqa: BLE001
+                        bad("selection-over-a-cache-file-raised", sc, case=case, exc=type(e_).__name__, message=str(e_)[:160])
+                    finally:
+                        try:
+                            _os.remove(cpath)
+                        except OSError:
+                            pass
                 # ---- run it: returned values and execution counters (C12 / C13)
                 if pid in ("C12", "C13") and ex is not None and j < 3:
                     stats["exec_runs"] += 1
@@ -1919,7 +2111,7 @@ def with_nested_setup(run):
 
 reg("C11", ["Props.C11_setup_at_most_once", "Props.C11_first_value_kept", "VM.not_entered_of_res", "Props.C11_runs_only_what_selection_needs", "Props.C11_later_executions_see_first_value",
             "Props.C11_kept_executors", "Props.C11_kept_executor_sees_current_setup", "Props.C11_setup_value_independent_of_arguments",
-            "Props.C13_C11_build_rule", "Props.C15_accepted_table_call_after_history_is_fresh", "Props.C11_setup_selection", "Props.C12_targets_only"], with_nested_setup(with_malformed(run_H, ["setup-on-normal", "setup-on-arg"])), ASSUME_H)
+            "Props.C13_C11_build_rule", "Props.C15_accepted_table_call_after_history_is_fresh", "Props.C11_setup_selection", "Props.C12_targets_only"], with_foreign_cache(with_nested_setup(with_malformed(run_H, ["setup-on-normal", "setup-on-arg"]))), ASSUME_H)
 def run_H_and_composeprobe(pid, tier, seed):
     cov, fs, _ = run_H(pid, tier, seed)
     covc, fsc, _ = run_C(pid, tier, seed)
@@ -1928,6 +2120,58 @@ def run_H_and_composeprobe(pid, tier, seed):
     cov["evaluations"] += covc.get("original_probes", 0)
     cov["rule"] += "; plus: the original DAG probed with the same arguments before and after compose() with random inputs/outputs (slice C)"
     return cov, fs + keep, None
+
+
+def exotic_container_flags():
+    """Flags that are ELEMENTS of containers outside the model's value vocabulary: objects whose own truthiness says nothing
+    about their elements (an empty `defaultdict` answers every key; a settings object whose `len` counts overrides only).
+    The flag is the ELEMENT (`x[key]`), judged by its own truthiness.  Yields (case, problems)."""
+    import collections as _c
+    from tawazi import dag as _dag, xn as _xn
+
+    class Settings:
+        def __init__(self, **d):
+            self.d = d
+
+        def __len__(self):
+            return 0            # "no overrides": falsy, yet every option has a value
+
+        def __getitem__(self, k):
+            return self.d[k]
+    ran = []
+
+    def guarded(v):
+        ran.append(v)
+        return ("ran", v)
+
+    def make(v):
+        return v
+    for f_ in (guarded, make):
+        f_.__qualname__ = f_.__name__
+    xg, xm = _xn(guarded), _xn(make)
+
+    def by_argument(c):
+        return xg(1, twz_active=c["on"])
+
+    def by_result(c):
+        return xg(1, twz_active=xm(c)["on"])
+    cases = [("empty-defaultdict/truthy", _c.defaultdict(lambda: True), True), ("empty-defaultdict/falsy", _c.defaultdict(lambda: 0), False),
+             ("settings-object/truthy", Settings(on="yes"), True), ("settings-object/falsy", Settings(on=""), False),
+             ("ordinary-dict/truthy", {"on": 1}, True), ("ordinary-dict/falsy", {"on": None}, False)]
+    for name_, desc in (("argument", by_argument), ("node-result", by_result)):
+        d = _dag(desc)
+        for cname, c, want_run in cases:
+            ran.clear()
+            bad = []
+            try:
+                r = d(c)
+                if bool(ran) != want_run:
+                    bad.append("flag element is %s but the node %s" % ("truthy" if want_run else "falsy", "ran" if ran else "did not run"))
+                if r != (("ran", 1) if want_run else None):
+                    bad.append("returned %r" % (r,))
+            except BaseException as e:  # noqa: BLE001
+                bad.append("raised %s: %s" % (type(e).__name__, str(e)[:100]))
+            yield "%s/%s" % (name_, cname), bad
 
 
 def run_V_and_composed_flags(pid, tier, seed):
@@ -1950,7 +2194,12 @@ def run_V_and_composed_flags(pid, tier, seed):
     cov["scheduler_scenarios_with_flags"] = dict(scenarios=covs.get("evaluations", 0), distinct_nontrivial=covs.get("distinct_nontrivial", 0))
     cov["evaluations"] += covs.get("evaluations", 0)
     cov["rule"] += "; plus: the scheduler scenarios (selections, setup runs, reconfiguration, nesting) judged by the C10 monitor"
-    return cov, fs + keep + [f for f in fss if f.kind == "counterexample"], searcher
+    ex_ = []
+    for case, problems in exotic_container_flags():
+        if problems:
+            ex_.append(Failure("counterexample", "flag-element-of-a-container-misjudged(%s)" % case, dict(case=case), dict(problems=problems), slice_="V"))
+    cov["exotic_container_flag_cases"] = 12
+    return cov, fs + keep + [f for f in fss if f.kind == "counterexample"] + ex_, searcher
 
 
 PROPS["C10"]["run"] = run_V_and_composed_flags
@@ -1963,7 +2212,7 @@ reg("C15", ["Props.C15_no_state_but_setup", "Props.C15_next_call_depends_only_on
     # "a call depends on its arguments and the setup state only" rests on the build rule that no setup node depends on a DAG
     # argument (required or defaulted): descriptions that break it must be refused (VM.validateB), else an argument of one
     # call reaches every later call through the kept setup value
-    with_malformed(run_H_and_composeprobe, ["setup-on-arg"]), ASSUME_H)
+    with_foreign_cache(with_malformed(run_H_and_composeprobe, ["setup-on-arg"])), ASSUME_H)
 reg("C18", ["Props.C18_restart_same", "Props.C18_restart_runs_only_uncached", "VM.denote_seeded", "Props.C18_cache_roundtrip",
             "Props.C18_checkpoint_chain", "Props.C18_chain_runs_nothing_twice", "Props.C18_write_back_keeps", "Props.C18_chain_hypothesis_met"], run_H, ASSUME_H)
 
@@ -2168,6 +2417,13 @@ def run_T(pid, tier, seed):
             stats["hung"] += 1
             failures.append(Failure("counterexample", "threads-hung", sc, dict(obs=obs, errors=errors), slice_="T"))
             return
+        if T.LAST_STALL[0] is not None:
+            # an action (a DAG call, a build step, a function call) did not return within 8 s while the other threads stood
+            # still at their turn: it waits for something another thread holds — no action of one thread may depend on another
+            stats["hung"] += 1
+            failures.append(Failure("counterexample", "action-blocked-by-another-threads-pending-work", sc,
+                                    dict(thread=T.LAST_STALL[0][0], schedule_position=T.LAST_STALL[0][1], obs=obs), slice_="T"))
+            return
         if errors:
             raise common.HarnessError("thread harness error: %r" % (errors,))
         # monitor: every thread observes a prefix of what it observes alone
@@ -2188,6 +2444,8 @@ def run_T(pid, tier, seed):
 
     base = random.Random("%s/t/%d" % (pid, seed))
     for k in range(n):
+        if stats["hung"] >= 2:
+            break           # every further interleaving would cost its time-out again
         sc = T.gen(random.Random(base.randrange(1 << 62)))
         one("x%d" % k, sc)
     # exhaustive: every interleaving of small programs
@@ -2205,6 +2463,8 @@ def run_T(pid, tier, seed):
     for pi, progs in enumerate(small):
         stats["exhaustive_programs"] += 1
         for si, sched in enumerate(T.all_schedules(progs)):
+            if stats["hung"] >= 2:
+                break
             stats["exhaustive_interleavings"] += 1
             one("e%d_%d" % (pi, si), dict(progs=progs, sched=list(sched)))
     # concurrent calls of one shared DAG with distinct arguments
@@ -2297,6 +2557,12 @@ def run_A(pid, tier, seed):
         stats["liveness_runs"] += 1
         if not ok:
             failures.append(Failure("counterexample", "loop-blocked/async-only", dict(kinds=[], maxc=maxc), detail, slice_="A"))
+    # ... also when the async-thread node that needs the loop is a SEQUENTIAL node (it runs alone; the loop is not its hostage)
+    for maxc in (1, 2):
+        ok, detail = A.liveness([], maxc, sequential=True)
+        stats["liveness_runs"] += 1
+        if not ok:
+            failures.append(Failure("counterexample", "loop-blocked/sequential-async-thread-node", dict(kinds=["seq-a"], maxc=maxc), detail, slice_="A"))
     # ... also after a reconfiguration that only restates priorities (every node keeps its resource)
     ok, detail = A.liveness([], 2, reconfigure=True)
     stats["liveness_runs"] += 1
